@@ -10,7 +10,7 @@
 (*               weekday and second of the day the tz database gives, the  *)
 (*               seven ranges (seconds, Sunday first), the answer got;     *)
 (*  k = "build"  a random well-formed schedule that the decoders refused;  *)
-(*  k = "ser"    a random serialised schedule (ms): ser = <<accepted by    *)
+(*  k = "ser"    a random serialised schedule (ms + ns): ser = <<accepted by *)
 (*               UnmarshalJSON, accepted by UnmarshalYAML, all round trips *)
 (*               returned the same schedule>>.                             *)
 (*                                                                         *)
@@ -23,13 +23,16 @@
 EXTENDS Integers, Sequences, FiniteSets, TLC, Json
 
 RS == INSTANCE ScheduleCore WITH TPD <- 86400, TPM <- 60, SUB <- 1000000000, WD0 <- 4
-MS == INSTANCE ScheduleCore WITH TPD <- 86400000, TPM <- 60000, SUB <- 1, WD0 <- 4
+MS == INSTANCE ScheduleCore WITH TPD <- 86400000, TPM <- 60000, SUB <- 1000000, WD0 <- 4
 
 Trace == ndJsonDeserialize("trace.ndjson")
 
 VARIABLES l, bad, mism
 
-Week(i) == [d \in 0 .. 6 |-> [s |-> Trace[i].w[d + 1][1], e |-> Trace[i].w[d + 1][2]]]
+\* w: seven [start, end] in ticks; wn: their sub-tick parts (zero except for
+\* "ser" lines, where w is in ms and wn in ns below one ms, floor form).
+Week(i) == [d \in 0 .. 6 |-> [s |-> Trace[i].w[d + 1][1], e |-> Trace[i].w[d + 1][2],
+                              sn |-> Trace[i].wn[d + 1][1], en |-> Trace[i].wn[d + 1][2]]]
 Zone(i) == [base |-> Trace[i].off, trans |-> <<>>]
 Inst(i) == [s |-> Trace[i].s, n |-> Trace[i].n]
 
@@ -41,10 +44,12 @@ EvalOk(i) == RS!Contains(Week(i), Zone(i), Inst(i)) <=> (Trace[i].got = 1)
 \* A refused schedule is a fault only if the statement says it is valid.
 BuildOk(i) == "reject" \in RS!WeekVerdicts(Week(i))
 
+\* ser[1] = 2: the JSON form was not exercised (a fraction that a binary
+\* floating-point number of milliseconds cannot carry exactly).
 SerOk(i) == LET v == MS!WeekVerdicts(Week(i))
-                accJ == Trace[i].ser[1] = 1
+                j == Trace[i].ser[1]
                 accY == Trace[i].ser[2] = 1 IN
-            /\ (accJ => "accept" \in v) /\ (~accJ => "reject" \in v)
+            /\ (j = 1 => "accept" \in v) /\ (j = 0 => "reject" \in v)
             /\ (accY => "accept" \in v) /\ (~accY => "reject" \in v)
             /\ Trace[i].ser[3] = 1          \* accepted schedules survived every round trip
 
